@@ -282,7 +282,7 @@ class CppTarget(CTarget):
     L = "c"  # same storage policy as C (smallest standard integer, float16 held in a float)
     kinds = True
 
-    def __init__(self, scratch, types, options=None, sanitize=False, std="c++14", tag="cpp", cc=None, extra_flags=(), uid=None):
+    def __init__(self, scratch, types, options=None, sanitize=False, std="c++14", tag="cpp", cc=None, extra_flags=(), uid=None, files=None):
         import copy
         import os
         import pathlib
@@ -300,6 +300,8 @@ class CppTarget(CTarget):
         nsdir = self.ts.write(self.root / "dsdl")
         self.out = self.root / "out"
         generate("cpp", nsdir, self.out, language_options=self.options)
+        for name, text in (files or {}).items():
+            (self.out / name).write_text(text)
         src = self.root / "driver.cpp"
         src.write_text(CppGen(self.ts).source())
         self.exe = self.root / "driver"
